@@ -38,6 +38,7 @@ type LoopContract struct {
 	Invariants []*Clause
 	Decreases  ast.Expr
 	DecText    string
+	DecTags    []string
 	Unroll     int // >0: unroll completely with an unwinding obligation
 	Tags       []string
 }
@@ -76,6 +77,7 @@ type UnitContract struct {
 	Requires []*Clause
 	Ensures  []*Clause
 	ExitEnsures []*Clause // must hold at every exit (return/break/continue) of a region, too
+	RetEnsures  []*Clause // must hold at every return statement inside a region (result0, result1, ... = the returned values)
 	Modifies []string
 	HasMod   bool
 	Macros   map[string]*Macro
@@ -85,6 +87,7 @@ type UnitContract struct {
 	Safety   map[string][]string // kind -> tags  (div, index, uint, nofatal)
 	Inline   bool
 	Trusted  bool // contract is assumed, body not verified (listed in assumptions)
+	AbortsOnly string // the callee aborts the process only in the stated situation, which is outside the reported error classes (assumption, listed)
 	Ghosts   []GhostVar
 	AtCalls  []*AtCall
 	Tags     map[string]bool // all tags mentioned
@@ -114,7 +117,7 @@ func (cs *ContractSet) Get(pkgdir, id string) *UnitContract {
 	return cs.ByID[pkgdir+":"+id]
 }
 
-var clauseHead = regexp.MustCompile(`^(requires|ensures-assumed|ensures|exit-ensures|invariant|assume|prove)(\[[A-Za-z0-9., ]*\])?\s+(?:([A-Za-z0-9_\-\.]+):\s)?(.*)$`)
+var clauseHead = regexp.MustCompile(`^(requires|ensures-assumed|ensures|exit-ensures|return-ensures|invariant|assume|prove)(\[[A-Za-z0-9., ]*\])?\s+(?:([A-Za-z0-9_\-\.]+):\s)?(.*)$`)
 
 func parseTags(s string) []string {
 	s = strings.Trim(s, "[]")
@@ -433,6 +436,8 @@ func (cs *ContractSet) parseFile(path, pkgdir string) error {
 			cur.Inline = true
 		case t == "trusted":
 			cur.Trusted = true
+		case strings.HasPrefix(t, "aborts-only "):
+			cur.AbortsOnly = strings.TrimSpace(strings.TrimPrefix(t, "aborts-only "))
 		case strings.HasPrefix(t, "opaque "):
 			cur.Opaque = append(cur.Opaque, strings.Fields(strings.TrimPrefix(t, "opaque "))...)
 		case strings.HasPrefix(t, "ghost var "):
@@ -544,11 +549,19 @@ func (cs *ContractSet) parseFile(path, pkgdir string) error {
 				return fail(l, "%v", err)
 			}
 			cur.AtCalls = append(cur.AtCalls, &AtCall{After: isAfter, Callee: callee, Ordinal: ord, Stmt: stmt, LHS: strings.TrimSpace(stmt[:eq]), RHS: rhs})
-		case strings.HasPrefix(t, "decreases "):
+		case strings.HasPrefix(t, "decreases ") || strings.HasPrefix(t, "decreases["):
 			if curLoop == nil {
 				return fail(l, "decreases outside loop")
 			}
-			txt := strings.TrimPrefix(t, "decreases ")
+			txt := strings.TrimSpace(strings.TrimPrefix(t, "decreases"))
+			if strings.HasPrefix(txt, "[") {
+				j := strings.Index(txt, "]")
+				curLoop.DecTags = parseTags(txt[:j+1])
+				for _, tg := range curLoop.DecTags {
+					cur.Tags[tg] = true
+				}
+				txt = strings.TrimSpace(txt[j+1:])
+			}
 			e, err := parseSpecExpr(txt)
 			if err != nil {
 				return fail(l, "%v", err)
@@ -614,6 +627,11 @@ func (cs *ContractSet) parseFile(path, pkgdir string) error {
 					c.Name = fmt.Sprintf("x%d", len(cur.ExitEnsures)+1)
 				}
 				cur.ExitEnsures = append(cur.ExitEnsures, c)
+			case "return-ensures":
+				if c.Name == "" {
+					c.Name = fmt.Sprintf("ret%d", len(cur.RetEnsures)+1)
+				}
+				cur.RetEnsures = append(cur.RetEnsures, c)
 			case "invariant":
 				if curLoop == nil {
 					return fail(l, "invariant outside loop")
